@@ -9,6 +9,9 @@ def genFacts : Facts :=
     getHandlerShape := Generated.c20GetHandlerShape
     sharedWrites := Generated.c20SharedWrites
     mutableDefaults := Generated.c20MutableDefaults
+    sharedObjectWrites := Generated.c20SharedObjectWrites
+    argValFresh := Generated.c20ArgValFresh
+    bbreprDef := Generated.c20BbreprDef
     glomScope := Generated.c20GlomScope
     glomScopeRoot := Generated.c20GlomScopeRoot
     childScope := Generated.c20ChildScope
